@@ -29,15 +29,23 @@ EXPLANATION = (
     "computed outside it (constants of the gradient by construction), which is checked per CFG path for the three policy-gradient "
     "callers. PPO: the ratio is exp(logp - logp_old) with logp_old computed once before the epoch loop from the same (observation, "
     "action); min/clip form decides the clipped-side zero gradient. SAC temperature: loss = mean(-alpha*(logp + target)), alpha = "
-    "exp(log_alpha), differentiated w.r.t. the log_alpha module only."
+    "exp(log_alpha), differentiated w.r.t. the log_alpha module only; alpha() is compared with exp(log_alpha) also at points beyond the "
+    "constant bounds of any clip / minimum / maximum it contains (numeric class-level constants read through self are the numbers): a "
+    "saturated piece no longer follows log_alpha and has zero derivative, so the temperature loss cannot move alpha there. Clipped "
+    "double-Q wrapper: __call__ and mean are evaluated on small concrete arrays in the two critic output conventions (N,) and (N,1) "
+    "(array semantics of element-wise functions, reductions with axis / keepdims, concatenate / stack, squeeze / None-indexing) and "
+    "must be the per-sample minimum / mean of the two heads in the heads' own shape."
 )
-TRUSTED = ["tfp log_prob/entropy implementations (C13 checks which parameters they receive)", "jnp.minimum/clip/exp semantics; nnx.value_and_grad(argnums)"]
+TRUSTED = ["tfp log_prob/entropy implementations (C13 checks which parameters they receive)", "jnp.minimum/clip/exp semantics; nnx.value_and_grad(argnums)",
+           "numpy broadcasting / axis / keepdims / concatenate / stack semantics of jax.numpy (re-implemented on small arrays for the shape worlds of R6)"]
 RULES = {
     "R1-pseudo-loss": "pseudo-loss == -mean(w * log pi(a|o)); at the three callers the weights are computed outside the differentiated function, from the documented quantities, and the policy is the differentiated argument",
     "R2-ppo": "ppo_loss == -mean(min(rho*A, clip(rho,1-c,1+c)*A)) + 0.5*mean((R-V)^2) - 0.01*mean(H); rho = exp(logp - logp_old); logp_old fixed before the epoch loop from the same data",
     "R3-dpg": "deterministic policy gradient losses == -mean(Q(o, pi(o))) (DDPG/TD3, TD7-SALE, MR.Q incl. the pre-activation penalty); differentiated argument is the actor",
     "R4-sac": "actor loss == mean(alpha*log pi(a|o) - Q(o,a)), a ~ pi(o); temperature loss == mean(-alpha()*(log pi + target_entropy)), alpha() = exp(log_alpha), differentiated w.r.t. log_alpha only",
     "R5-value-shapes": "the PPO value term subtracts arrays of equal rank (no (N,)-(N,1) broadcast)",
+    "R6-clipped-pair": "min Q / mean Q of the clipped double-Q wrapper (SAC, TD3, TD7 actor losses) is taken per sample: for both critic output conventions (N,) and (N,1), "
+                       "__call__ returns minimum(q1(x), q2(x)) and mean returns 0.5*(q1(x) + q2(x)) in the heads' own shape (no reduction over the batch)",
 }
 
 # All specs, role tables and shape environments below are written with the parameter names of the RECORDED signatures
@@ -240,14 +248,15 @@ class _Point:
     """One random point: every quantity that is not computed gets a reproducible random value - one value per sample, or one number
     for the documented scalars - that depends on its canonical text only (the same quantity has the same value on both sides)."""
 
-    def __init__(self, nf, seed, scalars=()):
-        self.nf, self.seed, self.scalars, self.memo = nf, seed, set(scalars), {}
+    def __init__(self, nf, seed, scalars=(), scale=None):
+        self.nf, self.seed, self.scalars, self.memo, self.scale = nf, seed, set(scalars), {}, dict(scale or {})
 
     def leaf(self, text):
         r = random.Random(f"c12|{self.seed}|{text}")
         m = self.nf.meta.get(text) or {}
         one = text in self.scalars or (m.get("fn", "") in _SCALAR_RESULT and not m.get("kws") and len(m.get("args", [])) == 1)
-        vals = [r.choice((-1.0, 1.0)) * r.uniform(0.3, 1.7) for _ in range(_N)]
+        k = self.scale.get(text, 1.0)
+        vals = [r.choice((-1.0, 1.0)) * r.uniform(0.3, 1.7) * k for _ in range(_N)]
         return vals[0] if one else vals
 
     def poly(self, p):
@@ -306,6 +315,40 @@ class _Point:
         raise _NotComputable(f)
 
 
+_SELECT = {"clip", "minimum", "maximum", "min", "max", "amin", "amax"}
+_BEYOND = 4.0      # leaves are drawn from +-[0.3, 1.7] * _BEYOND * |k|: beyond the bound k on both sides
+_FAR = 30.0        # a bound of larger magnitude lies where exp() leaves every float range: such pieces are not visited (not decided)
+
+
+def _bound_scales(nf, polys) -> dict:
+    """Leaf -> magnitude.  A selection (clip / minimum / maximum) between a quantity and a numeric constant k is a piecewise
+    function: the piece beyond k is a different function of the quantity (a constant: zero derivative).  The random points of
+    the base rounds have magnitude ~1 and never visit that piece when |k| is larger, so the leaves the compared quantity is
+    computed from are additionally drawn with a magnitude beyond the largest such |k| (both signs occur at every point)."""
+    out = {}
+    seen = set()
+    for p in polys:
+        for a in _reachable(nf, p):
+            if a in seen:
+                continue
+            seen.add(a)
+            c = _computed(nf, a)
+            if c is None or c[0] not in _SELECT or len(c[1]) < 2:
+                continue
+            ks = [abs(float(x.const_value())) for x in c[1] if x.is_const()]
+            ks = [k for k in ks if k > 0.25]
+            rest = [x for x in c[1] if not x.is_const()]
+            if not ks or not rest:
+                continue
+            if max(ks) > _FAR:
+                raise AnalysisError(f"the piece beyond the constant bound {max(ks):g} of a clip / minimum / maximum is not visited")
+            for x in rest:
+                for leaf in _reachable(nf, x):
+                    if _computed(nf, leaf) is None:
+                        out[leaf] = max(out.get(leaf, 1.0), _BEYOND * max(ks))
+    return out
+
+
 def _witness(nf, got, want, scalars):
     """None when both normal forms have the same value at every random point, else a description of one point where they differ."""
     for seed in range(_ROUNDS):
@@ -320,6 +363,29 @@ def _witness(nf, got, want, scalars):
                 raise AnalysisError("the value cannot be computed (not finite)")
             if abs(x - y) > 1e-9 * max(1.0, abs(x), abs(y)):
                 return f"{x:.6g} instead of {y:.6g} at a random point of the documented quantities"
+    # the pieces of selections with constant bounds that points of magnitude ~1 do not reach (a difference found above stands)
+    scale = _bound_scales(nf, [got, want])
+    if scale:
+        visited = 0
+        for seed in range(_ROUNDS):
+            pt = _Point(nf, f"beyond{seed}", scalars, scale)
+            try:
+                g, w = pt.poly(got), pt.poly(want)
+            except (_NotComputable, ZeroDivisionError, OverflowError, ValueError, TypeError):
+                continue
+            d = _ew(lambda x, y: (x, y), g, w)
+            pairs = _flat(d) if isinstance(d, list) else [d]
+            if not all(math.isfinite(x) and math.isfinite(y) for x, y in pairs):
+                continue
+            visited += 1
+            for x, y in pairs:
+                if abs(x - y) > 1e-7 * max(1.0, abs(x), abs(y)):
+                    return (f"{x:.6g} instead of {y:.6g} at a point where {sorted(a for a in pt.memo if a in scale)[:2]} lie beyond the constant bound of a clip / minimum / maximum "
+                            f"(the saturated piece is a constant there: its derivative is zero)")
+                if abs(x - y) > 1e-6 * max(abs(x), abs(y)):
+                    raise AnalysisError("beyond the constant bound of a clip / minimum / maximum the values are too small to be compared")
+        if not visited:
+            raise AnalysisError("the value cannot be computed beyond the constant bound of a clip / minimum / maximum")
     return None
 
 
@@ -432,8 +498,9 @@ def run(ck, repo: Repo, tier: str):
         cq = "rl_blox.algorithm.sac.EntropyCoefficient"
         m = repo.method(cq, "__call__")
         ck.need(m is not None, "EntropyCoefficient.__call__ not found")
-        owner, f = m
-        f._module = repo.cls(owner)._module
+        owner, f0 = m
+        f0._module = repo.cls(owner)._module
+        f = _with_class_constants(repo, cq, f0)       # `self.BOUND` with `BOUND = <number>` in the class body reads that number
         qual = f"{cq}.__call__"
         cfg = nf.cfg_of(f)
         env = {"self": Poly.atom("self", {"self"}, {"self"})}
@@ -446,8 +513,10 @@ def run(ck, repo: Repo, tier: str):
         sc0.inline_self_attrs = False
         # the three ways to read the array of an nnx.Param
         wants = [nf.poly(parse_expr(t), sc0, None) for t in ("jnp.exp(self.log_alpha.value)", "jnp.exp(self.log_alpha[...])", "jnp.exp(self.log_alpha)")]
-        _decide(ck, nf, "R4-sac", qual, "alpha-is-exp-log-alpha", "alpha()", got, wants, "alpha must be exp(log_alpha) (positive, trained in log space)", loc(f._module, f),
-                shown=f"return {got.canon()[:120]}")
+        # alpha() is documented for every value of the parameter: a clip / minimum / maximum between log_alpha and a constant is
+        # compared beyond the constant as well (there alpha() no longer follows log_alpha and the temperature gradient is zero)
+        _decide(ck, nf, "R4-sac", qual, "alpha-is-exp-log-alpha", "alpha()", got, wants, "alpha must be exp(log_alpha) for every value of the parameter (positive, trained in log space; "
+                "the temperature loss moves alpha through d alpha / d log_alpha = alpha > 0)", loc(f0._module, f0), extras=BASIC_EXTRAS | {"clip"}, shown=f"return {got.canon()[:120]}")
     ck.guard(_section_2)
 
     def _site(uq, lq, actor_params):
@@ -485,6 +554,432 @@ def run(ck, repo: Repo, tier: str):
     ck.guard(_a2c_normalised, ck, repo, nf)
     ck.guard(_ppo_update, ck, repo, nf)
     ck.guard(_value_shapes, ck, repo)
+    _clipped_pair(ck, repo)
+
+
+# ---- values with shapes: the two critic output conventions ---------------------------------------------------------------------------
+# The random points above are one number per sample.  Where the documented statement is about SHAPES - a critic may return (N,) or
+# (N,1) and min Q / mean Q must stay one value per sample in either case - the value is computed on small concrete arrays instead:
+# the same normal form, evaluated with the array semantics of the numpy / jax.numpy functions it is made of (element-wise functions
+# with broadcasting, reductions with axis / keepdims, concatenate / stack, squeeze / ravel / expand_dims / None-indexing).  A result
+# whose shape or entries differ from the documented per-sample value in one of the conventions is a witness; anything the evaluator
+# does not compute (unknown function, shapes that do not broadcast) is not read.
+import itertools
+
+
+class _Arr:
+    __slots__ = ("shape", "data")
+
+    def __init__(self, shape, data):
+        self.shape, self.data = tuple(shape), list(data)
+
+    def indices(self):
+        return itertools.product(*[range(n) for n in self.shape])
+
+    def at(self, ix):
+        off = 0
+        for n, i in zip(self.shape, ix):
+            off = off * n + i
+        return self.data[off]
+
+
+def _a_scalar(x):
+    return _Arr((), [float(x)])
+
+
+def _a_broadcast_shape(shapes):
+    r = max(len(s_) for s_ in shapes)
+    out = []
+    for i in range(r):
+        d = 1
+        for s_ in shapes:
+            j = i - (r - len(s_))
+            x = s_[j] if j >= 0 else 1
+            if x != 1:
+                if d not in (1, x):
+                    raise _NotComputable(f"shapes {shapes} do not broadcast")
+                d = x
+        out.append(d)
+    return tuple(out)
+
+
+def _a_map(f, *xs):
+    shp = _a_broadcast_shape([x.shape for x in xs])
+    data = []
+    for ix in itertools.product(*[range(n) for n in shp]):
+        vals = []
+        for x in xs:
+            sub = ix[len(shp) - len(x.shape):]
+            vals.append(x.at(tuple(0 if n == 1 else i for n, i in zip(x.shape, sub))))
+        data.append(f(*vals))
+    return _Arr(shp, data)
+
+
+def _a_axes(x, axes):
+    r = len(x.shape)
+    if axes is None:
+        return tuple(range(r))
+    out = []
+    for a in axes:
+        if not -r <= a < r:
+            raise _NotComputable(f"axis {a} of an array of rank {r}")
+        out.append(a % r)
+    return tuple(out)
+
+
+def _a_reduce(f, x, axes, keep):
+    axes = _a_axes(x, axes)
+    full = [1 if i in axes else n for i, n in enumerate(x.shape)]
+    groups = {}
+    for ix in x.indices():
+        groups.setdefault(tuple(0 if i in axes else v for i, v in enumerate(ix)), []).append(x.at(ix))
+    data = [f(groups[k]) for k in itertools.product(*[range(n) for n in full])]
+    return _Arr(full if keep else [n for i, n in enumerate(full) if i not in axes], data)
+
+
+def _a_join(parts, axis, new_axis):
+    """concatenate (new_axis False) / stack (new_axis True) of arrays along ``axis``."""
+    if not parts:
+        raise _NotComputable("empty join")
+    if new_axis:
+        if any(p.shape != parts[0].shape for p in parts):
+            raise _NotComputable("stack of different shapes")
+        r = len(parts[0].shape) + 1
+        if not -r <= axis < r:
+            raise _NotComputable("stack axis")
+        axis %= r
+        parts = [_Arr(p.shape[:axis] + (1,) + p.shape[axis:], p.data) for p in parts]
+    r = len(parts[0].shape)
+    if r == 0 or any(len(p.shape) != r for p in parts) or not -r <= axis < r:
+        raise _NotComputable("concatenate of different ranks / of scalars")
+    axis %= r
+    if any(p.shape[:axis] + p.shape[axis + 1:] != parts[0].shape[:axis] + parts[0].shape[axis + 1:] for p in parts):
+        raise _NotComputable("concatenate of incompatible shapes")
+    shape = list(parts[0].shape)
+    shape[axis] = sum(p.shape[axis] for p in parts)
+    data = []
+    for ix in itertools.product(*[range(n) for n in shape]):
+        k = ix[axis]
+        for p in parts:
+            if k < p.shape[axis]:
+                data.append(p.at(ix[:axis] + (k,) + ix[axis + 1:]))
+                break
+            k -= p.shape[axis]
+    return _Arr(shape, data)
+
+
+def _a_index(x, text):
+    """x[...] for indices made of `...`, `:`, None and integers."""
+    toks = ["..." if t.strip() == "Ellipsis" else t.strip() for t in text.split(",")]
+    if toks.count("...") > 1 or any(t not in ("...", ":", "None") and not re.fullmatch(r"-?\d+", t) for t in toks):
+        raise _NotComputable(f"index [{text}]")
+    used = sum(1 for t in toks if t not in ("...", "None"))
+    if used > len(x.shape):
+        raise _NotComputable(f"index [{text}] of an array of rank {len(x.shape)}")
+    if "..." in toks:
+        i = toks.index("...")
+        toks = toks[:i] + [":"] * (len(x.shape) - used) + toks[i + 1:]
+    else:
+        toks = toks + [":"] * (len(x.shape) - used)
+    shape, pick, ax = [], [], 0          # pick: per source axis either None (kept) or the integer chosen
+    for t in toks:
+        if t == "None":
+            shape.append(1)
+        elif t == ":":
+            shape.append(x.shape[ax])
+            pick.append(None)
+            ax += 1
+        else:
+            k = int(t)
+            if not -x.shape[ax] <= k < x.shape[ax]:
+                raise _NotComputable(f"index {k} of an axis of length {x.shape[ax]}")
+            pick.append(k % x.shape[ax])
+            ax += 1
+    kept = [i for i, p_ in enumerate(pick) if p_ is None]
+    src_shape = [x.shape[i] for i in kept]
+    data = []
+    for ix in itertools.product(*[range(n) for n in src_shape]):
+        full = list(pick)
+        for i, v in zip(kept, ix):
+            full[i] = v
+        data.append(x.at(tuple(full)))
+    return _Arr(shape, data)
+
+
+_A_UNARY = {"exp": math.exp, "log": math.log, "abs": abs, "tanh": math.tanh, "sq": lambda v: v * v, "sigmoid": lambda v: 1.0 / (1.0 + math.exp(-v)),
+            "softplus": lambda v: math.log1p(math.exp(v)), "relu": lambda v: max(v, 0.0), "zeros_like": lambda v: 0.0, "ones_like": lambda v: 1.0, "negative": lambda v: -v}
+_A_REDUCE = {"min": min, "max": max, "amin": min, "amax": max, "sum": sum, "mean": lambda v: sum(v) / len(v)}
+
+
+class _ArrayPoint:
+    """Evaluates a normal form on concrete small arrays.  ``leaf(atom, meta)`` supplies the arrays of the quantities that are not
+    computed (None: the quantity is not known here -> not computable)."""
+
+    def __init__(self, nf, leaf):
+        self.nf, self.leaf, self.memo = nf, leaf, {}
+
+    def poly(self, p):
+        if p.elems is not None:
+            raise _NotComputable("tuple")
+        tot = _a_scalar(0.0)
+        for mono, c in p.terms.items():
+            t = _a_scalar(float(c))
+            for a, k in mono:
+                t = _a_map(lambda x, y, k=k: x * y ** k, t, self.atom(a))
+            tot = _a_map(lambda x, y: x + y, tot, t)
+        return tot
+
+    def atom(self, a):
+        if a not in self.memo:
+            self.memo[a] = self._atom(a)
+        return self.memo[a]
+
+    def _int(self, p, what):
+        if not (p.elems is None and p.is_const() and float(p.const_value()) == int(p.const_value())):
+            raise _NotComputable(f"{what} is not an integer literal")
+        return int(p.const_value())
+
+    def _axis(self, m, rest):
+        """(axes or None, keepdims) of a reduction from its keywords / the positional argument after the array."""
+        kws = dict(m.get("kws", {}))
+        ax = kws.pop("axis", None)
+        keep = kws.pop("keepdims", None)
+        if kws or len(rest) > 1 or (rest and ax is not None):
+            raise _NotComputable("arguments of the reduction")
+        ax = rest[0] if rest else ax
+        if ax is not None and ax.canon() == "None":
+            ax = None
+        if ax is not None:
+            ax = tuple(self._int(x, "axis") for x in ax.elems) if ax.elems is not None else (self._int(ax, "axis"),)
+        return ax, bool(self._int(keep, "keepdims")) if keep is not None else False
+
+    def _atom(self, a):
+        m = self.nf.meta.get(a)
+        v = self.leaf(a, m)
+        if v is not None:
+            return v
+        if not m:
+            raise _NotComputable(f"`{a[:50]}` is not a known quantity")
+        f = m.get("fn", "").split(".")[-1]
+        args, kws = list(m.get("args", [])), m.get("kws", {})
+        if f in _A_UNARY and len(args) == 1 and not kws:
+            return _a_map(_A_UNARY[f], self.poly(args[0]))
+        if f == "pow" and len(args) == 2 and not kws and args[1].is_const():
+            e = float(args[1].const_value())
+            return _a_map(lambda x: x ** e, self.poly(args[0]))
+        if f in ("minimum", "maximum") and len(args) >= 2 and not kws:
+            return _a_map(lambda *xs: (min if f == "minimum" else max)(xs), *[self.poly(x) for x in args])
+        if f == "clip" and len(args) == 3 and not kws:
+            return _a_map(lambda x, y, z: min(max(x, y), z), *[self.poly(x) for x in args])
+        if f in _A_REDUCE and args and args[0].elems is None:
+            rest = args[1:]
+            if f in ("min", "max") and rest and not kws:
+                # builtin min(a, b) and jnp.min(x, axis) share one (argument-sorted) form: an integer literal next to one array is the axis
+                ints = [x for x in args if x.elems is None and x.is_const()]
+                arrs = [x for x in args if not (x.elems is None and x.is_const())]
+                if len(ints) != 1 or len(arrs) != 1:
+                    raise _NotComputable(f"{f} of several values")
+                args, rest = arrs, ints
+            ax, keep = self._axis(m, rest)
+            return _a_reduce(_A_REDUCE[f], self.poly(args[0]), ax, keep)
+        if f in ("concatenate", "concat", "stack", "hstack", "vstack") and args and args[0].elems is not None:
+            parts = [self.poly(x) for x in args[0].elems]
+            kw = dict(kws)
+            ax = kw.pop("axis", args[1] if len(args) == 2 else None)
+            if kw or len(args) > 2 or (f in ("hstack", "vstack") and ax is not None):
+                raise _NotComputable(f"arguments of {f}")
+            if f == "hstack":
+                axis = 0 if parts and len(parts[0].shape) <= 1 else 1
+                parts = [p if p.shape else _Arr((1,), p.data) for p in parts]
+            elif f == "vstack":
+                axis = 0
+                parts = [p if len(p.shape) >= 2 else _Arr((1,) + (p.shape or (1,)), p.data) for p in parts]
+            else:
+                axis = 0 if ax is None else self._int(ax, "axis")
+            return _a_join(parts, axis, f == "stack")
+        if f == "squeeze" and args:
+            x = self.poly(args[0])
+            ax, _ = self._axis(m, args[1:])
+            if ax is None:
+                return _Arr([n for n in x.shape if n != 1], x.data)
+            ax = _a_axes(x, ax)
+            if any(x.shape[i] != 1 for i in ax):
+                raise _NotComputable("squeeze of an axis longer than 1")
+            return _Arr([n for i, n in enumerate(x.shape) if i not in ax], x.data)
+        if f in ("ravel", "flatten") and len(args) == 1 and not kws:
+            x = self.poly(args[0])
+            return _Arr((len(x.data),), x.data)
+        if f == "reshape" and len(args) == 2 and not kws:
+            x = self.poly(args[0])
+            tgt = [self._int(t, "shape") for t in (args[1].elems if args[1].elems is not None else [args[1]])]
+            if tgt.count(-1) > 1 or any(t < -1 or t == 0 for t in tgt):
+                raise _NotComputable("reshape target")
+            known = math.prod(t for t in tgt if t != -1)
+            if len(x.data) % known or (-1 not in tgt and known != len(x.data)):
+                raise _NotComputable("reshape to another size")
+            return _Arr([len(x.data) // known if t == -1 else t for t in tgt], x.data)
+        if f == "expand_dims" and args:
+            x = self.poly(args[0])
+            ax, _ = self._axis(m, args[1:])
+            if ax is None or len(ax) != 1 or not -(len(x.shape) + 1) <= ax[0] <= len(x.shape):
+                raise _NotComputable("expand_dims axis")
+            i = ax[0] % (len(x.shape) + 1)
+            return _Arr(x.shape[:i] + (1,) + x.shape[i:], x.data)
+        if f == "subscript" and len(args) == 1:
+            base = args[0].canon()
+            if a.startswith(base + "[") and a.endswith("]"):
+                return _a_index(self.poly(args[0]), a[len(base) + 1:-1])
+        if f == "T" and len(args) == 1:
+            x = self.poly(args[0])
+            if len(x.shape) <= 1:
+                return x
+            if len(x.shape) == 2:
+                return _Arr((x.shape[1], x.shape[0]), [x.at((i, j)) for j in range(x.shape[1]) for i in range(x.shape[0])])
+        if f in ("Lt", "LtE") and len(args) == 2:
+            return _a_map((lambda x, y: float(x < y)) if f == "Lt" else (lambda x, y: float(x <= y)), self.poly(args[0]), self.poly(args[1]))
+        if f == "where" and len(args) == 3 and not kws:
+            return _a_map(lambda c, x, y: x if c else y, *[self.poly(x) for x in args])
+        raise _NotComputable(f"`{f}(...)` is not computed on arrays")
+
+
+def _a_show(x):
+    return f"shape {x.shape}" + (f" values {[round(v, 4) for v in x.data[:6]]}" if len(x.data) <= 6 else "")
+
+
+_PAIR_N = 3     # samples in the batch of the shape worlds (any N >= 2 separates per-sample values from values reduced over the batch)
+
+
+def _clipped_pair(ck, repo):
+    """R6: ContinuousClippedDoubleQNet.__call__ / .mean in the two critic output conventions."""
+    from ..nf import STRIP
+    cq = "rl_blox.blox.double_qnet.ContinuousClippedDoubleQNet"
+    nfa = NF(repo, inline_depth=4, strip=set(STRIP) - {"squeeze", "flatten", "ravel"})      # shapes matter here: layout changes are kept
+    nfa.keep_layout = {"reshape"}
+    nfa.expand_squares = False
+    documented = {"__call__": ("minimum(q1(x), q2(x))", lambda a, b: _a_map(min, a, b)), "mean": ("0.5 * (q1(x) + q2(x))", lambda a, b: _a_map(lambda x, y: 0.5 * (x + y), a, b))}
+    for meth, (text, want_of) in documented.items():
+        def _one(meth=meth, text=text, want_of=want_of):
+            m = repo.method(cq, meth)
+            ck.need(m is not None, f"{cq}.{meth} not found (anchor vanished)")
+            owner, fn = m
+            fn._module = repo.cls(owner)._module
+            qual = f"{cq}.{meth}"
+            cfg = nfa.cfg_of(fn)
+            rets = [n for n in cfg.nodes if n.kind == "stmt" and isinstance(n.ast, ast.Return) and n.ast.value is not None]
+            ck.need(len(rets) == 1, f"{qual}: {len(rets)} return statements (unrecognised form)")
+            sc = Scope(cfg, fn._module, {}, f"{owner}.{meth}", self_class=cq)       # calls of the wrapper's own methods are read through
+            got = nfa.poly(rets[0].ast.value, sc, rets[0].id)
+            if got.elems is not None or _UNREAD.search(got.canon()):
+                raise AnalysisError(f"{qual}: `{got.canon()[:100]}` contains a part that was not read (unrecognised form)")
+            heads = {}
+            for a in _reachable(nfa, got):
+                f_ = (nfa.meta.get(a) or {}).get("fn", "")
+                if f_ in ("self.q1", "self.q2"):
+                    heads.setdefault(f_, set()).add(a)
+            if set(heads) != {"self.q1", "self.q2"} or any(len(v) != 1 for v in heads.values()):
+                raise AnalysisError(f"{qual}: `{got.canon()[:100]}` does not apply each of the two heads exactly once (which value is the documented pair is not read here) (unrecognised form)")
+            h1, h2 = next(iter(heads["self.q1"])), next(iter(heads["self.q2"]))
+            sig = lambda a: ([x.canon() for x in nfa.meta[a]["args"]], sorted((k, v.canon()) for k, v in nfa.meta[a]["kws"].items()))
+            if sig(h1) != sig(h2):
+                raise AnalysisError(f"{qual}: the two heads receive different arguments (not read here) (unrecognised form)")
+            verdicts, unread = [], []
+            for conv, shape in (("(N,)", (_PAIR_N,)), ("(N,1)", (_PAIR_N, 1))):
+                def leaf(a, meta, shape=shape, conv=conv):
+                    if a in (h1, h2):
+                        r = random.Random(f"c12|pair|{conv}|{a}")
+                        return _Arr(shape, [r.choice((-1.0, 1.0)) * r.uniform(0.3, 1.7) for _ in range(math.prod(shape))])
+                    return None
+                pt = _ArrayPoint(nfa, leaf)
+                want = want_of(pt.atom(h1), pt.atom(h2))
+                try:
+                    g = pt.poly(got)
+                except AnalysisError:
+                    raise
+                except Exception as e:       # anything the small array evaluator does not carry out is "not read", never a verdict
+                    unread.append(f"critic outputs {conv}: {e}")
+                    continue
+                same = g.shape == want.shape and all(abs(x - y) <= 1e-9 * max(1.0, abs(x), abs(y)) for x, y in zip(g.data, want.data))
+                verdicts.append((conv, same, g, want))
+            bad = [v for v in verdicts if not v[1]]
+            if not bad and unread:
+                raise AnalysisError(f"{qual}: `{got.canon()[:100]}` is not computed on arrays ({'; '.join(unread)}) (unrecognised form)")
+            detail = ""
+            if bad:
+                conv, _, g, want = bad[0]
+                detail = (f"with critics that return {conv} (N = {_PAIR_N}) the result has {_a_show(g)} instead of the per-sample {text} with {_a_show(want)}"
+                          + (": the reduction runs over the batch as well, every sample gets the same value" if len(g.data) < len(want.data) else ""))
+            ck.ob("R6-clipped-pair", qual, "per-sample-in-both-conventions", not bad, f"return {got.canon()[:110]}   [" + ", ".join(f"{c}: {'same' if s_ else 'differs'}" for c, s_, _, _ in verdicts) + "]",
+                  detail, loc(fn._module, fn))
+        ck.guard(_one)
+
+
+def _number(e):
+    """Value of a numeric literal (also signed), else None."""
+    if isinstance(e, ast.UnaryOp) and isinstance(e.op, (ast.USub, ast.UAdd)):
+        v = _number(e.operand)
+        return None if v is None else (-v if isinstance(e.op, ast.USub) else v)
+    if isinstance(e, ast.Constant) and isinstance(e.value, (int, float)) and not isinstance(e.value, bool):
+        return e.value
+    return None
+
+
+def _class_constants(repo, cq) -> dict:
+    """Name -> numeric literal for the names that a class of the MRO of ``cq`` binds in its body to a number and that nothing in the
+    package ever stores as an attribute (no `self.NAME = ...`, `Class.NAME = ...`, `setattr`-free by construction of the scan):
+    `self.NAME` then reads that number in every instance."""
+    found = {}
+    for c in repo.mro(cq):
+        for st in repo.cls(c).body:
+            tgt = st.targets[0] if isinstance(st, ast.Assign) and len(st.targets) == 1 else (st.target if isinstance(st, ast.AnnAssign) and st.value is not None else None)
+            if isinstance(tgt, ast.Name) and _number(st.value) is not None:
+                found.setdefault(tgt.id, []).append(_number(st.value))
+    found = {k: v[0] for k, v in found.items() if len(v) == 1}
+    if found:
+        for mi in repo.modules.values():
+            for n in ast.walk(mi.tree):
+                if isinstance(n, ast.Attribute) and n.attr in found and isinstance(n.ctx, (ast.Store, ast.Del)):
+                    found.pop(n.attr)
+                elif isinstance(n, ast.Call) and isinstance(n.func, ast.Name) and n.func.id in ("setattr", "delattr"):
+                    return {}
+    return found
+
+
+def _with_class_constants(repo, cq, fn):
+    """Copy of method ``fn`` in which reads `self.NAME` of numeric class-level constants are the numbers (the method itself when
+    there is nothing to replace).  Local rebinding of `self` is not expected in a method; a parameter other than the first one
+    named like that would not be `self`."""
+    consts = _class_constants(repo, cq)
+    first = fn.args.posonlyargs + fn.args.args
+    if not consts or not first:
+        return fn
+    me = first[0].arg
+    if any(isinstance(n, ast.Name) and n.id == me and isinstance(n.ctx, (ast.Store, ast.Del)) for n in ast.walk(fn)):
+        return fn
+    from ..expand import clone
+    new = clone(fn)
+
+    class T(ast.NodeTransformer):
+        hit = False
+
+        def visit_Attribute(self, n):
+            self.generic_visit(n)
+            if isinstance(n.ctx, ast.Load) and isinstance(n.value, ast.Name) and n.value.id == me and n.attr in consts:
+                T.hit = True
+                return ast.copy_location(ast.Constant(value=consts[n.attr]), n)
+            return n
+    new = T().visit(new)
+    if not T.hit:
+        return fn
+    ast.fix_missing_locations(new)
+    for parent in ast.walk(new):
+        for child in ast.iter_child_nodes(parent):
+            child._parent = parent
+    new._module = fn._module
+    if hasattr(fn, "_qual"):
+        new._qual = fn._qual
+    if hasattr(fn, "_parent"):
+        new._parent = fn._parent
+    return new
 
 
 def _bind_app(uq, app: ast.Call, lfn) -> dict:
@@ -643,11 +1138,27 @@ def _a2c_normalised(ck, repo, nf):
     mi = fn._module
     cfg = nf.cfg_of(fn)
     env = _env(fn)
-    calls = [(n, c) for n in cfg.nodes if n.ast is not None and n.kind == "stmt" for c in ast.walk(n.ast)
-             if isinstance(c, ast.Call) and isinstance(c.func, (ast.Name, ast.Attribute)) and (repo.resolve_expr(mi, c.func) == gq or dotted(c.func) == "a2c_policy_gradient")]
-    ck.need(len(calls) == 1, f"{q}: a2c_policy_gradient call not found")
-    n, c = calls[0]
+    def calls_in(g):
+        return [(n, c) for n in g.nodes if n.ast is not None and n.kind == "stmt" for c in ast.walk(n.ast)
+                if isinstance(c, ast.Call) and isinstance(c.func, (ast.Name, ast.Attribute)) and (repo.resolve_expr(mi, c.func) == gq or dotted(c.func) == "a2c_policy_gradient")]
+    calls = calls_in(cfg)
     sc = Scope(cfg, mi, env, q)
+    if not calls:
+        # the gradient step may be written as a local closure (handed to a stepping helper): the weights are then a free variable
+        # of the closure, read with the value the routine binds once at its top level
+        from ..sem import closure_env
+        inner = [(g, calls_in(nf.cfg_of(g))) for g in ast.walk(fn) if isinstance(g, ast.FunctionDef) and g is not fn]
+        inner = [(g, cs) for g, cs in inner if cs]
+        if len(inner) == 1 and len(inner[0][1]) == 1:
+            g, calls = inner[0]
+            own = set(param_names(g))
+            rebound = {x.id for x in ast.walk(g) if isinstance(x, ast.Name) and isinstance(x.ctx, ast.Store)}
+            genv = {k: v for k, v in env.items() if k not in own | rebound}
+            genv.update({k: v for k, v in closure_env(nf, fn, g, mi, env, q).items() if k not in own | rebound})
+            genv.update({k: Poly.atom(k, {k}, {k}) for k in own})
+            sc = Scope(nf.cfg_of(g), mi, genv, f"{q}.<locals>.{g.name}")
+    ck.need(len(calls) == 1, f"{q}: the a2c_policy_gradient call was not found (unrecognised form)")
+    n, c = calls[0]
     if any(isinstance(a, ast.Starred) for a in c.args) or any(k.arg is None for k in c.keywords):
         raise AnalysisError(f"{q}: `{short(c, 70)}` passes packed arguments (unrecognised form)")
     padv = _renames(repo, gq)["advantages"]
@@ -876,4 +1387,49 @@ BENIGN += [
                                                                                    ("            actions,\n            normalized_advantages,\n", "            actions,\n            weights=normalized_advantages,\n")]},
     {"id": "c12-b-reinforce-renamed-returns", "file": "rl_blox/algorithm/reinforce.py", "edits": [("    actions: jnp.ndarray,\n    returns: jnp.ndarray,\n    gamma_discount: jnp.ndarray | None = None,\n) -> tuple[jnp.ndarray, jnp.ndarray]:", "    actions: jnp.ndarray,\n    mc_returns: jnp.ndarray,\n    gamma_discount: jnp.ndarray | None = None,\n) -> tuple[jnp.ndarray, jnp.ndarray]:"),
                                                                                                     ("        baseline = jnp.zeros_like(returns)\n    weights = returns - baseline", "        baseline = jnp.zeros_like(mc_returns)\n    weights = mc_returns - baseline")]},
+]
+
+# R6 (shape worlds of the clipped pair) and the alpha() pieces beyond constant bounds
+_DQ = "rl_blox/blox/double_qnet.py"
+_DQ_CALL = "        return jnp.minimum(self.q1(*args, **kwargs), self.q2(*args, **kwargs))"
+_DQ_MEAN = "        return 0.5 * (self.q1(*args, **kwargs) + self.q2(*args, **kwargs))"
+_ALPHA = "        return jnp.exp(self.log_alpha.value)"
+MUTANTS += [
+    # joined on the last axis and reduced there: per sample for (N,1) critics, one value for the whole batch for (N,) critics
+    {"id": "c12-pair-mean-hstack-last-axis", "file": _DQ, "rule": "R6", "find": _DQ_MEAN, "replace": "        return jnp.hstack((self.q1(*args, **kwargs), self.q2(*args, **kwargs))).mean(axis=-1, keepdims=True)"},
+    # stacked on a new last axis but reduced over the first one (the batch)
+    {"id": "c12-pair-min-over-batch-axis", "file": _DQ, "rule": "R6", "find": _DQ_CALL, "replace": "        both = jnp.stack((self.q1(*args, **kwargs), self.q2(*args, **kwargs)), axis=-1)\n        return both.min(axis=0)"},
+    {"id": "c12-pair-global-min", "file": _DQ, "rule": "R6", "find": _DQ_CALL, "replace": "        return jnp.minimum(self.q1(*args, **kwargs), self.q2(*args, **kwargs)).min()"},
+    # (N,) critics come back as (N,1): the result no longer has the heads' shape
+    {"id": "c12-pair-shape-changed", "file": _DQ, "rule": "R6", "find": _DQ_CALL, "replace": "        return jnp.minimum(self.q1(*args, **kwargs).squeeze(), self.q2(*args, **kwargs).squeeze())[..., None]"},
+    # alpha() saturates: beyond the bound it no longer follows log_alpha (zero temperature gradient)
+    {"id": "c12-alpha-upper-bound", "file": _SAC, "rule": "R4", "find": _ALPHA, "replace": "        return jnp.exp(jnp.minimum(self.log_alpha.value, 3.0))"},
+    {"id": "c12-alpha-clipped-module-bounds", "file": _SAC, "rule": "R4", "edits": [(_ALPHA, "        bounded = jnp.clip(self.log_alpha.value, _LOG_LO, _LOG_HI)\n        return jnp.exp(bounded)"),
+                                                                                 ("class EntropyCoefficient(nnx.Module):", "_LOG_LO = -8.0\n_LOG_HI = 4.0\n\n\nclass EntropyCoefficient(nnx.Module):")]},
+    {"id": "c12-alpha-value-clipped", "file": _SAC, "rule": "R4", "find": _ALPHA, "replace": "        return jnp.clip(jnp.exp(self.log_alpha.value), 1e-4, 10.0)"},
+    {"id": "c12-alpha-class-scale-2", "file": _SAC, "rule": "R4", "edits": [(_ALPHA, "        return jnp.exp(self.SCALE * self.log_alpha.value)"), ("    log_alpha: nnx.Param[jnp.ndarray]\n", "    log_alpha: nnx.Param[jnp.ndarray]\n    SCALE: float = 2.0\n")]},
+]
+BENIGN += [
+    # the pair stacked on a NEW axis and reduced over it: per sample in both conventions
+    {"id": "c12-b-pair-stack-min", "file": _DQ, "find": _DQ_CALL, "replace": "        both = jnp.stack([self.q1(*args, **kwargs), self.q2(*args, **kwargs)], axis=-1)\n        return jnp.min(both, axis=-1)"},
+    {"id": "c12-b-pair-where", "file": _DQ, "find": _DQ_CALL, "replace": "        a = self.q1(*args, **kwargs)\n        b = self.q2(*args, **kwargs)\n        return jnp.where(a < b, a, b)"},
+    {"id": "c12-b-pair-mean-stack", "file": _DQ, "find": _DQ_MEAN, "replace": "        return jnp.mean(jnp.stack((self.q1(*args, **kwargs), self.q2(*args, **kwargs)), axis=0), axis=0)"},
+    {"id": "c12-b-pair-helper", "file": _DQ, "edits": [(_DQ_CALL, "        a, b = self._both(*args, **kwargs)\n        return jnp.minimum(b, a)"),
+                                                        ("    def mean(self", "    def _both(self, *args, **kwargs):\n        return self.q1(*args, **kwargs), self.q2(*args, **kwargs)\n\n    def mean(self")]},
+    # a bound that never acts (exp > 0), a class-level constant that is the neutral factor
+    {"id": "c12-b-alpha-nonnegative", "file": _SAC, "find": _ALPHA, "replace": "        return jnp.maximum(jnp.exp(self.log_alpha.value), 0.0)"},
+    {"id": "c12-b-alpha-class-scale-1", "file": _SAC, "edits": [(_ALPHA, "        return jnp.exp(self.SCALE * self.log_alpha.value)"), ("    log_alpha: nnx.Param[jnp.ndarray]\n", "    log_alpha: nnx.Param[jnp.ndarray]\n    SCALE: float = 1.0\n")]},
+]
+
+# the A2C gradient step written as a local closure (weights are a free variable bound once by the routine)
+_A2C = "rl_blox/algorithm/a2c.py"
+_A2C_LOOP = ("    p_loss = 0.0\n    for _ in range(policy_gradient_steps):\n        p_loss, p_grad = a2c_policy_gradient(\n            policy,\n            observations,\n            actions,\n"
+             "            normalized_advantages,\n        )\n        policy_optimizer.update(policy, p_grad)\n    return p_loss")
+_A2C_CLOSURE = ("    def one_step(pi, opt):\n        value, grad = a2c_policy_gradient(pi, observations, actions, normalized_advantages)\n        opt.update(pi, grad)\n        return value\n\n"
+                "    steps = [one_step] * policy_gradient_steps      # the closure is handed on as a value (not called by name)\n    p_loss = 0.0\n    for step in steps:\n        p_loss = step(policy, policy_optimizer)\n    return p_loss")
+MUTANTS += [
+    {"id": "c12-a2c-closure-no-centering", "file": _A2C, "rule": "R1", "edits": [(_A2C_LOOP, _A2C_CLOSURE), ("    normalized_advantages = (advantages - adv_mean) / adv_std", "    normalized_advantages = advantages / adv_std")]},
+]
+BENIGN += [
+    {"id": "c12-b-a2c-closure-step", "file": _A2C, "find": _A2C_LOOP, "replace": _A2C_CLOSURE},
 ]
